@@ -15,6 +15,8 @@ from pycoin.message.PeerAddress import PeerAddress
 from pycoin.message import make_parser_and_packer as MPP
 from pycoin.merkle import merkle
 from pycoin.encoding.hash import double_sha256
+from pycoin.coins.Tx import Tx as BaseTx
+from pycoin.block import Block as BaseBlock
 
 PROP = "C16"
 EXTRA_PROPS = ["C16compose"]   # composition with the C07 transaction and C14 block/header models
@@ -67,21 +69,21 @@ def _closure_objects(fn, depth=4):
     return out
 
 
-def _find_streamer():
-    """the Streamer behind network.message: located by type in the closures of pack/parse (no local-variable names);
-    fallback: built through the same public constructors networks/bitcoinish.py uses"""
+def _find_streamer(M_, Block_, Tx_):
+    """the Streamer behind a network's message API: located by type in the closures of pack/parse (no local-variable
+    names); fallback: built through the same public constructors networks/bitcoinish.py uses"""
     try:
         from pycoin.serialize.streamer import Streamer as _SB
-        for fn in (M.pack, M.parse):
+        for fn in (M_.pack, M_.parse):
             for o in _closure_objects(fn):
                 if isinstance(o, _SB) and "A" in getattr(o, "parse_lookup", {}):
                     return o
     except Exception:
         pass
-    return MPP.standard_streamer(MPP.standard_parsing_functions(Block, Tx))
+    return MPP.standard_streamer(MPP.standard_parsing_functions(Block_, Tx_))
 
 
-def _find_layouts():
+def _find_layouts(M_):
     """message name -> layout string: the public standard_messages(), else the table held by pack/parse"""
     try:
         d = MPP.standard_messages()
@@ -89,15 +91,81 @@ def _find_layouts():
             return d
     except Exception:
         pass
-    for fn in (M.pack, M.parse):
+    for fn in (M_.pack, M_.parse):
         for o in _closure_objects(fn):
             if isinstance(o, dict) and o and all(isinstance(k, str) and isinstance(v, str) for k, v in o.items()):
                 return o
     return dict(getattr(MPP, "STANDARD_P2P_MESSAGES", {}))
 
 
-S = _find_streamer()
-LAYOUTS = _find_layouts()
+class NetCtx:
+    """one network object with a message API: its Tx / Block classes, packer / parser, streamer"""
+
+    def __init__(self, sym, net):
+        self.sym = sym.upper()
+        self.network = net
+        self.Tx = net.tx
+        self.Block = net.block
+        self.M = net.message
+        self.S = _find_streamer(self.M, self.Block, self.Tx)
+        self.LAYOUTS = _find_layouts(self.M)
+        self.suffix = "" if self.sym == "BTC" else "@" + self.sym
+        self._objs = None
+
+    def objs(self, rng):
+        if self._objs is None:
+            self._objs = Objs(rng, self)
+        return self._objs
+
+    def class_key(self):
+        return (tuple(c.__module__ + "." + c.__name__ for c in self.Block.__mro__[1:2]),
+                tuple(c.__module__ + "." + c.__name__ for c in self.Tx.__mro__[:1]))
+
+
+BTC = NetCtx("btc", network)
+S = BTC.S
+LAYOUTS = BTC.LAYOUTS
+_ALL_NETS = None
+
+
+def all_nets():
+    """every pycoin.symbols network that has a message API (a network that cannot be imported here is skipped)"""
+    global _ALL_NETS
+    if _ALL_NETS is None:
+        import pkgutil, importlib, pycoin.symbols as _sy
+        nets = {"BTC": BTC}
+        for m in sorted(pkgutil.iter_modules(_sy.__path__), key=lambda m: m.name):
+            if m.name == "btc":
+                continue
+            try:
+                net = importlib.import_module("pycoin.symbols." + m.name).network
+                if getattr(net, "message", None) is None or getattr(net, "tx", None) is None or getattr(net, "block", None) is None:
+                    continue
+                nets[m.name.upper()] = NetCtx(m.name, net)
+            except Exception:
+                continue
+        _ALL_NETS = nets
+    return _ALL_NETS
+
+
+def representative_nets():
+    """BTC plus one network per distinct (Block base class, Tx class): the codecs T / B / z differ between them"""
+    seen, out = {BTC.class_key()}, []
+    prefer = ["BTG", "BCH", "LTC", "GRS"]
+    nets = all_nets()
+    for sym in prefer + sorted(nets):
+        c = nets.get(sym)
+        if c is None or c is BTC or c.class_key() in seen:
+            continue
+        seen.add(c.class_key())
+        out.append(c)
+    return out
+
+
+def ctx_of(sym):
+    if not sym or sym.upper() == "BTC":
+        return BTC
+    return all_nets().get(sym.upper().lstrip("@")) or BTC
 
 
 def split_layout(lay):
@@ -105,10 +173,18 @@ def split_layout(lay):
     return [p[0] for p in pairs], "".join(p[1] for p in pairs)
 
 
-def parse_fields(name, f):
+def parse_fields(name, f, ctx=None):
     """the field-level parser of a message (no post-processing), leaving the rest of f unread"""
-    names, types = split_layout(LAYOUTS[name])
-    return S.parse_as_dict(names, types, f)
+    ctx = ctx or BTC
+    names, types = split_layout(ctx.LAYOUTS[name])
+    return ctx.S.parse_as_dict(names, types, f)
+
+
+def hdr_bytes(b):
+    f = io.BytesIO()
+    b.stream_header(f)
+    return f.getvalue()
+
 
 EXN_NAMES = ["E_SCRIPT", "E_VALUE", "E_ENCODING", "E_STRUCT", "E_INDEX", "E_TYPE", "E_ASSERT", "E_ATTR", "E_KEY",
              "E_VALIDATION", "E_BADMERKLE", "E_BADSPEND", "E_NOPOINT", "E_SECRET", "E_PUBPAIR", "E_DER", "E_OVERFLOW", "E_OTHER"]
@@ -132,22 +208,42 @@ def _o_parse(parse_f, canon_f):
     return o
 
 
-def _o_mbpost(b):
-    f = io.BytesIO(b)
-    try:
-        d = guarded(lambda: parse_fields("merkleblock", f))
-        d = guarded(lambda: MPP.post_unpack_merkleblock(d, f))
-    except (Exception, ImplTimeout) as e:
-        return _exn_code(e)
-    return b"\0" + b"".join(d["tx_hashes"])
+def _o_mbpost(ctx):
+    def o(b):
+        f = io.BytesIO(b)
+        try:
+            d = guarded(lambda: parse_fields("merkleblock", f, ctx))
+            d = guarded(lambda: MPP.post_unpack_merkleblock(d, f))
+        except (Exception, ImplTimeout) as e:
+            return _exn_code(e)
+        return b"\0" + b"".join(d["tx_hashes"])
+    return o
 
 
-ORACLES = {
-    "txparse": _o_parse(Tx.parse, lambda t: t.as_bin()),
-    "blkparse": _o_parse(Block.parse, lambda b: b.as_bin()),
-    "hdrparse": _o_parse(Block.parse_as_header, lambda b: b.as_bin()),
-    "mbpost": _o_mbpost,
-}
+def _o_hdrof(ctx):
+    def o(b):
+        try:
+            return hdr_bytes(ctx.Block.parse(io.BytesIO(b), check_merkle_hash=False))
+        except Exception:
+            return b[:80]
+    return o
+
+
+def _oracles_for(ctx):
+    sfx = ctx.suffix
+    return {"txparse" + sfx: _o_parse(ctx.Tx.parse, lambda t: t.as_bin()),
+            "blkparse" + sfx: _o_parse(ctx.Block.parse, lambda b: b.as_bin()),
+            "hdrparse" + sfx: _o_parse(ctx.Block.parse_as_header, lambda b: b.as_bin()),
+            "mbpost" + sfx: _o_mbpost(ctx), "hdrof" + sfx: _o_hdrof(ctx)}
+
+
+# oracle name -> callback; names carry the network: txparse (BTC), txparse@BTG, ...
+ORACLES = dict(_oracles_for(BTC))
+try:
+    for _c in representative_nets():
+        ORACLES.update(_oracles_for(_c))
+except Exception:
+    pass
 
 
 # ---- canonical forms (= show_pv in ml_src/driver_c16.ml) and argument tokens -----------------------
@@ -168,9 +264,9 @@ def cv(v):
         return "A(%s %s %s)" % (cv(v.services), cv(v.ip_bin), cv(v.port))
     if isinstance(v, InvItem):
         return "V(%s %s)" % (cv(v.item_type), cv(v.data))
-    if isinstance(v, Tx):
+    if isinstance(v, BaseTx):
         return "t" + v.as_bin().hex()
-    if isinstance(v, Block):
+    if isinstance(v, BaseBlock):
         return "k" + v.as_bin().hex()
     if isinstance(v, dict):
         return "{" + " ".join("%s=%s" % (k, cv(x)) for k, x in v.items()) + "}"
@@ -187,23 +283,27 @@ def tok(v):
         return "F"
     if isinstance(v, int):
         return "i" + ("-" if v < 0 else "") + format(abs(v), "x")
-    if isinstance(v, (bytes, bytearray)):
+    if isinstance(v, (bytes, bytearray, memoryview)):
         return "x" + bytes(v).hex()
     if isinstance(v, (tuple, list)):
         return "(" + ",".join(tok(x) for x in v) + ")"
-    if isinstance(v, PeerAddress):      # raw constructor arguments (= the object state unless the constructor is changed)
-        return "A(%s,%s,%s)" % tuple(tok(x) for x in pa_raw(v))
+    if isinstance(v, PeerAddress):      # constructor arguments as given (the model applies its own constructor)
+        a = getattr(v, "_c16_args", None)
+        sv, ip, port = (int(a[0]), a[1], a[2]) if a is not None else pa_raw(v)
+        return "A(%s,%s,%s)" % (tok(sv), tok(ip), tok(port))
     if isinstance(v, InvItem):
         return "V(%s,%s)" % (tok(v.item_type), tok(v.data))
-    if isinstance(v, Tx):
+    if isinstance(v, BaseTx):
         return "t" + v.as_bin().hex()
-    if isinstance(v, Block):
+    if isinstance(v, BaseBlock):
         return ("k" if v.txs else "z") + v.as_bin().hex()
     raise TypeError("tok: %r" % (v,))
 
 
-def untok(t):
+def untok(t, ctx=None):
     """inverse of tok (lists come back as tuples)"""
+    ctx = ctx or BTC
+    Tx, Block = ctx.Tx, ctx.Block
     pos = [0]
 
     def hexrun():
@@ -282,10 +382,10 @@ def kwtok(kw):
     return ";".join("%s=%s" % (k, tok(v)) for k, v in kw.items()) or "-"
 
 
-def unkwtok(t):
+def unkwtok(t, ctx=None):
     if t == "-":
         return {}
-    return dict((it.split("=", 1)[0], untok(it.split("=", 1)[1])) for it in t.split(";"))
+    return dict((it.split("=", 1)[0], untok(it.split("=", 1)[1], ctx)) for it in t.split(";"))
 
 
 # ---- implementation thunks ------------------------------------------------------------------------
@@ -339,21 +439,22 @@ def i_unpack_struct(fmt, data):
     return ccall(go)
 
 
-def i_pack(name, kw):
-    return ccall(lambda: cv(M.pack(name, **kw)))
+def i_pack(name, kw, ctx=None):
+    return ccall(lambda: cv((ctx or BTC).M.pack(name, **kw)))
 
 
-def i_parse(name, data):
-    return ccall(lambda: cv(M.parse(name, data)))
+def i_parse(name, data, ctx=None):
+    return ccall(lambda: cv((ctx or BTC).M.parse(name, data)))
 
 
 ZERO_WIDTH = set("#@O")     # codecs that return a value from an exhausted stream
 
 
-def hang_guard(fmt, data):
+def hang_guard(fmt, data, ctx=None):
     """True when Streamer.parse_struct(fmt, data) could iterate an attacker-chosen count of zero-width elements
     (the Python loop runs `count` times: e.g. `[#]` with count 2^32 on an empty stream never comes back).  Such
     cases are not sent to either side."""
+    S = (ctx or BTC).S
     f = io.BytesIO(data)
     i = 0
     try:
@@ -380,7 +481,7 @@ def hang_guard(fmt, data):
 
 
 # ---- objects ------------------------------------------------------------------------------------------
-def _mk_txs(rng):
+def _mk_txs(rng, Tx):
     TxIn, TxOut = Tx.TxIn, Tx.TxOut
     txs = []
     txs.append(Tx(1, [TxIn(b"\1" * 32, 0, b"\x51", 0xffffffff)], [TxOut(5000, b"\x51")], 0))
@@ -411,28 +512,69 @@ def _mk_txs(rng):
     for t in txs:
         b = t.as_bin()
         f = io.BytesIO(b + b"\xee")
-        if Tx.parse(f).as_bin() == b and f.tell() == len(b):
-            ok.append(t)
-    assert len(ok) >= 8
+        try:
+            if Tx.parse(f).as_bin() == b and f.tell() == len(b):
+                ok.append(t)
+        except Exception:
+            pass
     return ok
 
 
-def _mk_block(txs, rng):
+def _mk_header(Block, rng, merkle_root, extreme=None):
+    """a header-only Block of the network's class; Bitcoin Gold style constructors (32-byte nonce, height, Equihash
+    solution) are recognised by their parameter names"""
+    import inspect
+    params = list(inspect.signature(Block.__init__).parameters)
+    if extreme == 0:
+        ver, prev, ts, diff, nonce = 0, b"\0" * 32, 0, 0, 0
+    elif extreme == 1:
+        ver, prev, ts, diff, nonce = 0xffffffff, b"\xff" * 32, 0xffffffff, 0xffffffff, 0xffffffff
+    else:
+        ver, prev, ts, diff, nonce = rng.choice([1, 2, 0x20000000]), rb(rng, 32), rng.getrandbits(32), 0x1d00ffff, rng.getrandbits(32)
+    if "solution" in params:
+        sol_len = {0: 0, 1: 1344}.get(extreme, rng.choice([0, 1, 36, 100, 252, 253, 400, 1344]))
+        height = {0: 0, 1: 0xffffffff}.get(extreme, rng.choice([0, 1, 491406, 491407, 500000, 2 ** 31]))
+        return Block(ver, prev, merkle_root, ts, diff, rb(rng, 32), height, rb(rng, sol_len))
+    return Block(ver, prev, merkle_root, ts, diff, nonce)
+
+
+def _mk_block(txs, rng, Block):
     mr = merkle([t.hash() for t in txs], double_sha256)
-    b = Block(rng.choice([1, 2, 0x20000000]), bytes(rng.getrandbits(8) for _ in range(32)), mr,
-              rng.getrandbits(32), 0x1d00ffff, rng.getrandbits(32))
+    b = _mk_header(Block, rng, mr)
     b.set_txs(list(txs))
     return b
 
 
 class Objs:
-    def __init__(self, rng):
-        self.txs = _mk_txs(rng)
-        self.blocks = [_mk_block(self.txs[:1], rng), _mk_block(self.txs[:2], rng), _mk_block(self.txs[2:5], rng),
-                       _mk_block(self.txs, rng)]
-        self.headers = [Block.parse_as_header(io.BytesIO(b.as_bin())) for b in self.blocks]
-        self.headers.append(Block(0, b"\0" * 32, b"\0" * 32, 0, 0, 0))
-        self.headers.append(Block(0xffffffff, b"\xff" * 32, b"\xff" * 32, 0xffffffff, 0xffffffff, 0xffffffff))
+    def __init__(self, rng, ctx=None):
+        ctx = ctx or BTC
+        Block = ctx.Block
+        self.ctx = ctx
+        self.txs = _mk_txs(rng, ctx.Tx)
+        self.blocks, self.headers = [], []
+        self.notes = []
+        for sel in (slice(0, 1), slice(0, 2), slice(2, 5), slice(0, None)):
+            try:
+                b = _mk_block(self.txs[sel], rng, Block)
+                bb = b.as_bin()
+                f = io.BytesIO(bb + b"\xee")
+                if Block.parse(f).as_bin() == bb and f.tell() == len(bb):   # the Block codec is C14's: exact ones only
+                    self.blocks.append(b)
+            except Exception as e:
+                self.notes.append("block: %s: %s" % (type(e).__name__, e))
+        for b in self.blocks:
+            self.headers.append(Block.parse_as_header(io.BytesIO(b.as_bin())))
+        for ex in (0, 1, None, None):
+            try:
+                h = _mk_header(Block, rng, b"\0" * 32 if ex == 0 else (b"\xff" * 32 if ex == 1 else rb(rng, 32)), ex)
+                hb = hdr_bytes(h)
+                f = io.BytesIO(hb + b"\xee")
+                if hdr_bytes(Block.parse_as_header(f)) == hb and f.tell() == len(hb):
+                    self.headers.append(h)
+            except Exception as e:
+                self.notes.append("header: %s: %s" % (type(e).__name__, e))
+        if ctx is BTC:
+            assert len(self.txs) >= 8 and len(self.blocks) == 4 and len(self.headers) >= 6
 
 
 # ---- the independent wire description (hand-written from the protocol documentation / BIP 37, 130, 133, 152) ----
@@ -474,7 +616,8 @@ IP4_MAPPED_PREFIX = bytes.fromhex("00000000000000000000ffff")     # RFC 4291 IPv
 def mkpa(services, ip, port):
     """PeerAddress from raw arguments; remembers what the 16 wire bytes must be (4 bytes -> IPv4-mapped, 16 kept)"""
     pa = PeerAddress(services, ip, port)
-    pa._c16_raw = (services, IP4_MAPPED_PREFIX + ip if len(ip) == 4 else ip, port)
+    pa._c16_raw = (int(services), IP4_MAPPED_PREFIX + ip if len(ip) == 4 else ip, port)
+    pa._c16_args = (services, ip, port)
     return pa
 
 
@@ -548,7 +691,7 @@ def wire1(wt, v):
     if wt == "block":
         return v.as_bin()
     if wt == "header":
-        return v.as_bin()[:80]
+        return hdr_bytes(v)
     raise ValueError(wt)
 
 
@@ -707,18 +850,18 @@ def partial_merkle(tx_hashes, matched):
     return node(height, 0), hashes, flags
 
 
-def gen_merkleblock(rng, n=None):
+def gen_merkleblock(rng, n=None, ctx=None):
     n = n or rng.choice([1, 2, 3, 4, 5, 7, 8, 9, 16, 17, 33])
     txh = [double_sha256(b"tx%d-%d" % (i, rng.getrandbits(32))) for i in range(n)]
     matched = [rng.random() < 0.3 for _ in range(n)]
     root, hashes, flags = partial_merkle(txh, matched)
-    hdr = Block(rng.choice([1, 2]), rb(rng, 32), root, rng.getrandbits(32), 0x1d00ffff, rng.getrandbits(32))
+    hdr = _mk_header((ctx or BTC).Block, rng, root)
     return {"header": hdr, "total_transactions": n, "hashes": tuple(hashes), "flags": tuple(flags)}
 
 
 def gen_kwargs(name, rng, O):
     if name == "merkleblock":
-        return gen_merkleblock(rng)
+        return gen_merkleblock(rng, None, getattr(O, "ctx", None))
     kw = {}
     for fname, wt in WIRE[name]:
         kw[fname] = gen_field(wt, rng, O)
@@ -748,7 +891,7 @@ def message_values(name, rng, O, tier):
                     out.append(dict(base, **{fname: v}))
     else:
         for n in list(range(1, 12)) + [16, 17, 31, 32, 33, 64, 100]:
-            out.append(gen_merkleblock(rng, n))
+            out.append(gen_merkleblock(rng, n, getattr(O, "ctx", None)))
     for _ in range(40 if tier == "quick" else 600):
         out.append(gen_kwargs(name, rng, O))
     return out
@@ -836,14 +979,58 @@ def model_cases(rng, tier):
             return
         cases.append(Case("unpack_struct s%s %s" % (fmt, tok(data)), (lambda fmt=fmt, data=data: i_unpack_struct(fmt, data))))
 
-    def add_pack(name, kw):
-        cases.append(Case("pack s%s %s" % (name, kwtok(kw)), (lambda name=name, kw=kw: i_pack(name, kw))))
+    def add_pack(name, kw, ctx=None, line_kw=None):
+        pre = (ctx.suffix + " ") if ctx is not None and ctx.suffix else ""
+        cases.append(Case("pack %ss%s %s" % (pre, name, kwtok(line_kw if line_kw is not None else kw)),
+                          (lambda name=name, kw=kw, ctx=ctx: i_pack(name, kw, ctx))))
 
-    def add_parse(name, data):
-        lay = LAYOUTS.get(name)
-        if lay is not None and hang_guard("".join(t.split(":")[1] for t in lay.split()), data):
+    def add_parse(name, data, ctx=None):
+        lay = (ctx or BTC).LAYOUTS.get(name)
+        if lay is not None and hang_guard("".join(t.split(":")[1] for t in lay.split()), data, ctx):
             return
-        cases.append(Case("parse s%s %s" % (name, tok(data)), (lambda name=name, data=data: i_parse(name, data))))
+        pre = (ctx.suffix + " ") if ctx is not None and ctx.suffix else ""
+        cases.append(Case("parse %ss%s %s" % (pre, name, tok(data)), (lambda name=name, data=data, ctx=ctx: i_parse(name, data, ctx))))
+
+    # 0a. other networks (their own Tx / Block / header codecs behind the oracles): the messages that carry objects
+    for ctx in representative_nets():
+        if "txparse" + ctx.suffix not in ORACLES:
+            continue
+        try:
+            On = ctx.objs(rng)
+        except Exception:
+            continue
+        for name in OBJECT_MESSAGES + ["version", "addr"]:
+            if not usable(name, On):
+                continue
+            for i, kw in enumerate(message_values(name, rng, On, "quick")[:(40 if tier == "thorough" else 10)]):
+                add_pack(name, kw, ctx)
+                try:
+                    b = ctx.M.pack(name, **kw)
+                except Exception:
+                    continue
+                add_parse(name, b, ctx)
+                if len(b) < 3000 and i < 4:
+                    for m in mutate_stream(b, rng):
+                        add_parse(name, m, ctx)
+    # 0b. accepted presentations of field values: the implementation gets the re-presented value, the model the
+    #     declared-type one (presentation independence)
+    for name in WIRE:
+        kw = gen_merkleblock(rng, 3) if name == "merkleblock" else gen_kwargs(name, rng, O)
+        for fname, wt in WIRE[name]:
+            if isinstance(wt, list) and name != "merkleblock":
+                kw[fname] = gen_array(wt, 2, rng, O)
+            elif wt == "netaddr":
+                kw[fname] = mkpa(1, IP4_MAPPED_PREFIX + bytes([10, 1, 2, 3]), 8333)
+        for fname, kind, kw2 in presentation_variants(name, kw):
+            if kind in ("services-str",):
+                canon_line = dict(kw2, **{fname: kw[fname]})
+            else:
+                canon_line = kw2
+            try:
+                kwtok(canon_line)
+            except TypeError:
+                canon_line = kw
+            add_pack(name, kw2, None, canon_line)
 
     # 1. every codec: declared-type values, values outside the type, objects in wrong slots; then parse what was written
     all_vals = [None, True, False, 0, 1, 2, -1, 255, 256, 2 ** 48, 2 ** 64, b"", b"\0", b"ab", b"\5" * 32, b"\6" * 16, (), (1,), (1, 2),
@@ -954,13 +1141,232 @@ def canon_value(v):
     return v
 
 
-def chk_roundtrip(name, kw):
+class MyInt(int):
+    """an int subclass (IntEnum-like): a legal presentation of an integer field"""
+
+
+class MyBytes(bytes):
+    """a bytes subclass (like pycoin's own bytes_as_revhex)"""
+
+
+INT_WTS = ("u8", "u16be", "u32", "u48", "u64", "compact")
+BYTES_WTS = ("varstr", "hash32", "ip16")
+
+
+def canon_presentation(v, wt):
+    """the declared-type value an accepted presentation stands for (what parse is expected to give back)"""
+    if wt is None:
+        return v
+    if isinstance(wt, list):
+        if isinstance(v, (bytes, bytearray)) and wt == ["u8"]:
+            return tuple(bytes(v))
+        out = []
+        for e in v:
+            if len(wt) == 1:
+                if isinstance(e, (tuple, list)) and len(e) == 1:
+                    e = e[0]
+                out.append(canon_presentation(e, wt[0]))
+            else:
+                out.append(tuple(canon_presentation(x, w) for x, w in zip(e, wt)))
+        return tuple(out)
+    if wt in INT_WTS and isinstance(v, int):
+        return int(v)
+    if wt == "bool" and isinstance(v, int):
+        return bool(v)
+    if wt == "optbool" and v is not None and isinstance(v, int) and v in (0, 1):
+        return bool(v)
+    if wt in BYTES_WTS and isinstance(v, (bytes, bytearray, memoryview)):
+        return bytes(v)
+    return v
+
+
+PRESENTATIONS = ["bytearray", "memoryview", "bytes-subclass", "int-subclass", "bool-as-int", "int-as-bool", "list", "list-of-lists",
+                 "one-tuples", "bytes-array", "bytearray-array", "ipv4-short-form", "services-str", "services-bool"]
+
+
+def apply_presentation(kind, wt, v):
+    """another accepted Python presentation of the declared-type value v of wire type wt, or None when not applicable"""
+    if isinstance(wt, list):
+        if kind == "list":
+            return list(v)
+        if kind == "list-of-lists" and len(wt) > 1:
+            return [list(e) for e in v]
+        if kind == "one-tuples" and len(wt) == 1:
+            return tuple((e,) for e in v) if v and not isinstance(v[0], (tuple, list)) else None
+        if kind == "bytes-array" and wt == ["u8"]:
+            return bytes(v)
+        if kind == "bytearray-array" and wt == ["u8"]:
+            return bytearray(v)
+        if len(wt) == 1 and v:
+            alt = apply_presentation(kind, wt[0], v[0])
+            return None if alt is None else (alt,) + tuple(v[1:])
+        if len(wt) > 1 and v:
+            for j, w in enumerate(wt):
+                alt = apply_presentation(kind, w, v[0][j])
+                if alt is not None:
+                    return (tuple(alt if i == j else x for i, x in enumerate(v[0])),) + tuple(v[1:])
+        return None
+    if wt in BYTES_WTS:
+        if kind == "bytearray":
+            return bytearray(v)
+        if kind == "memoryview":
+            return memoryview(v)
+        if kind == "bytes-subclass":
+            return MyBytes(v)
+        return None
+    if wt in INT_WTS:
+        if kind == "int-subclass":
+            return MyInt(v)
+        if kind == "bool-as-int" and v in (0, 1):
+            return bool(v)
+        return None
+    if wt in ("bool", "optbool"):
+        if kind == "int-as-bool" and v is not None:
+            return int(v)
+        return None
+    if wt == "netaddr":
+        sv, ip, port = getattr(v, "_c16_args", None) or pa_raw(v)
+        if kind == "ipv4-short-form" and len(ip) == 16 and ip[:12] == IP4_MAPPED_PREFIX:
+            return mkpa(sv, ip[12:], port)
+        if kind == "services-str":
+            return mkpa(str(int(sv)), ip, port)
+        if kind == "services-bool" and sv in (0, 1):
+            return mkpa(bool(sv), ip, port)
+        if kind == "int-subclass":
+            return mkpa(MyInt(sv), ip, MyInt(port))
+        return None
+    if wt == "inv":
+        if kind == "bytes-subclass":
+            return InvItem(v.item_type, MyBytes(v.data), dont_check=True)
+        if kind == "int-subclass":
+            return InvItem(MyInt(v.item_type), v.data, dont_check=True)
+        return None
+    return None
+
+
+def presentation_variants(name, kw):
+    """(field, kind, keyword arguments with that field re-presented) for every applicable presentation"""
+    for fname, wt in WIRE[name]:
+        for kind in PRESENTATIONS:
+            try:
+                alt = apply_presentation(kind, wt, kw[fname])
+            except Exception:
+                alt = None
+            if alt is not None:
+                yield fname, kind, dict(kw, **{fname: alt})
+
+
+def chk_presentation(name, kwt, fname, kind, ctx=None):
+    kw = unkwtok(kwt, ctx)
+    alt = apply_presentation(kind, dict(WIRE[name])[fname], kw[fname])
+    if alt is None:
+        return None
+    return chk_roundtrip(name, dict(kw, **{fname: alt}), ctx)
+
+
+def chk_history(seq, ctx=None):
+    """the packer / parser keep no state: every message of a sequence packs to its own wire bytes and parses back,
+    whatever was packed or parsed before (long before short, repeated, interleaved with parses, both orders)"""
+    ctx = ctx or BTC
+    items = [(n, unkwtok(t, ctx)) for n, t in seq]
+    for order in (items, list(reversed(items)), items + items):
+        for n, kw in order:
+            try:
+                b = ctx.M.pack(n, **kw)
+            except Exception as e:
+                return {"kind": "history-pack-raises", "message": n, "detail": "%s: %s" % (type(e).__name__, e)}
+            exp = wire_fields(WIRE[n], kw)
+            if b != exp:
+                return {"kind": "history-dependent-pack", "message": n, "got": b[:120].hex(), "expected": exp[:120].hex(),
+                        "len_got": len(b), "len_expected": len(exp)}
+            try:
+                d = ctx.M.parse(n, b)
+            except Exception as e:
+                return {"kind": "history-parse-raises", "message": n, "detail": "%s: %s" % (type(e).__name__, e)}
+            for fname, _ in WIRE[n]:
+                if cv(d.get(fname)) != cvw(canon_value(kw[fname])):
+                    return {"kind": "history-dependent-parse", "message": n, "field": fname}
+    return None
+
+
+def chk_mutation(which, a1, a2, ctx=None):
+    """helper objects are not memoised: after changing the attributes of a PeerAddress / InvItem (direct assignment)
+    the next pack writes the CURRENT fields, and an object rebuilt from those fields packs the same"""
+    ctx = ctx or BTC
+    S = ctx.S
+    if which == "netaddr":
+        o = PeerAddress(*a1)
+        c = "A"
+        first = S.pack_struct(c, o)
+        repr(o), o.host(), o == o, o < PeerAddress(*a2)        # every observer once before the mutation
+        o.services, o.ip_bin, o.port = a2[0], (IP4_MAPPED_PREFIX + a2[1] if len(a2[1]) == 4 else a2[1]), a2[2]
+        fresh = PeerAddress(*a2)
+        exp = int(a2[0]).to_bytes(8, "little") + (IP4_MAPPED_PREFIX + a2[1] if len(a2[1]) == 4 else a2[1]) + a2[2].to_bytes(2, "big")
+    else:
+        o = InvItem(a1[0], a1[1], dont_check=True)
+        c = "v"
+        first = S.pack_struct(c, o)
+        repr(o), hash(o), o == o
+        o.item_type, o.data = a2
+        fresh = InvItem(a2[0], a2[1], dont_check=True)
+        exp = a2[0].to_bytes(4, "little") + a2[1]
+    second = S.pack_struct(c, o)
+    if second != exp or S.pack_struct(c, fresh) != exp:
+        return {"kind": "stale-object-state", "got": second.hex(), "fresh": S.pack_struct(c, fresh).hex(), "expected": exp.hex()}
+    if not (o == fresh) or (which == "inv" and hash(o) != hash(fresh)):
+        return {"kind": "mutated-object-not-equal-to-fresh"}
+    (back,) = S.parse_struct(c, io.BytesIO(second))
+    if not (back == fresh):
+        return {"kind": "mutated-object-parse-differs"}
+    return None
+
+
+def py_equal(got, want):
+    """equality of a parsed-back field value with the value that was packed, as a caller would test it: the objects'
+    own __eq__ / __ne__ in both directions (PeerAddress, InvItem), serialisation for Tx / Block, == otherwise"""
+    if isinstance(want, (tuple, list)):
+        return isinstance(got, (tuple, list)) and len(got) == len(want) and all(py_equal(g, w) for g, w in zip(got, want))
+    if isinstance(want, (BaseTx, BaseBlock)):
+        return type(got) is type(want) and got.as_bin() == want.as_bin() and hdr_bytes_or_none(got) == hdr_bytes_or_none(want)
+    if isinstance(want, (PeerAddress, InvItem)):
+        return bool(got == want) and bool(want == got) and not (got != want) and not (want != got)
+    if isinstance(want, (bytearray, memoryview)):
+        return bytes(want) == got
+    return got == want
+
+
+def hdr_bytes_or_none(b):
+    return hdr_bytes(b) if isinstance(b, BaseBlock) else None
+
+
+def twin_check(v):
+    """a PeerAddress built from the 4-byte IPv4 form must equal the one built from its 16-byte IPv4-mapped twin"""
+    if isinstance(v, (tuple, list)):
+        for x in v:
+            r = twin_check(x)
+            if r:
+                return r
+        return None
+    if isinstance(v, PeerAddress) and getattr(v, "_c16_args", None) is not None:
+        sv, ip, port = v._c16_args
+        if len(ip) == 4:
+            t = PeerAddress(sv, IP4_MAPPED_PREFIX + ip, port)
+            if not (v == t and t == v) or (v != t):
+                return {"kind": "ipv4-form-not-equal-to-mapped-twin", "ip": ip.hex()}
+    return None
+
+
+def chk_roundtrip(name, kw, ctx=None):
+    ctx = ctx or BTC
+    M = ctx.M
     spec = WIRE.get(name)
+    wts = dict(spec)
+    canon_kw = dict((k, canon_presentation(v, wts.get(k))) for k, v in kw.items())
     try:
         b = M.pack(name, **kw)
     except Exception as e:
         return {"kind": "pack-raises", "detail": "%s: %s" % (type(e).__name__, e)}
-    exp = wire_fields(spec, kw)
+    exp = wire_fields(spec, canon_kw)
     if b != exp:
         return {"kind": "wire-mismatch", "got": b[:120].hex(), "expected": exp[:120].hex(), "len_got": len(b), "len_expected": len(exp)}
     try:
@@ -970,7 +1376,7 @@ def chk_roundtrip(name, kw):
     if name == "alert":
         # alert_info: the parsed sub-message when the payload is a serialized alert, else None
         try:
-            want_info = S.parse_as_dict([n for n, _ in ALERT_WIRE], "".join(_wire_fmt(w) for _, w in ALERT_WIRE), io.BytesIO(kw["payload"]))
+            want_info = ctx.S.parse_as_dict([n for n, _ in ALERT_WIRE], "".join(_wire_fmt(w) for _, w in ALERT_WIRE), io.BytesIO(bytes(kw["payload"])))
         except Exception:
             want_info = None
         if "alert_info" not in d or cv(d["alert_info"]) != cv(want_info):
@@ -978,13 +1384,19 @@ def chk_roundtrip(name, kw):
     for fname, _ in spec:
         if fname not in d:
             return {"kind": "field-missing", "field": fname}
-        want = canon_value(kw[fname])
+        want = canon_value(canon_kw[fname])
         got = d[fname]
-        if cv(got) != cvw(want) or (isinstance(want, InvItem) and got != want):
+        if cv(got) != cvw(want):
             return {"kind": "field-differs", "field": fname, "got": cv(got)[:200], "want": cvw(want)[:200]}
+        if not py_equal(got, want):
+            return {"kind": "field-not-equal", "field": fname, "got": cv(got)[:200], "want": cvw(want)[:200],
+                    "detail": "parsed value != packed value under the objects' own equality"}
+        r = twin_check(kw[fname])
+        if r:
+            return r
     # nothing left unread
     f = io.BytesIO(b)
-    parse_fields(name, f)
+    parse_fields(name, f, ctx)
     rest = f.read()
     if rest:
         return {"kind": "bytes-left", "left": len(rest)}
@@ -1007,7 +1419,8 @@ def chk_layout_is_protocol(name):
     return None
 
 
-def chk_codec(wt, v):
+def chk_codec(wt, v, ctx=None):
+    S = (ctx or BTC).S
     c = CODEC_OF_WIRE[wt]
     try:
         b = S.pack_struct(c, v)
@@ -1023,11 +1436,18 @@ def chk_codec(wt, v):
             return {"kind": "codec-parse-raises", "detail": "%s: %s" % (type(e).__name__, e)}
         if cv(w) != cvw(v) or f.read() != rest:
             return {"kind": "codec-roundtrip", "got": cv(w)[:200], "want": cvw(v)[:200]}
-    return None
+        if not py_equal(w, v):
+            return {"kind": "codec-not-equal", "got": cv(w)[:200], "want": cvw(v)[:200],
+                    "detail": "parsed value != packed value under the objects' own equality"}
+    return twin_check(v)
 
 
-def _inp(name, kw):
-    return {"name": name, "kwargs": kwtok(kw) if len(kwtok(kw)) < 20000 else None, "kwargs_long": None if len(kwtok(kw)) < 20000 else kwtok(kw)}
+def _inp(name, kw, ctx=None):
+    t = kwtok(kw)
+    d = {"name": name, "kwargs": t if len(t) < 20000 else None, "kwargs_long": None if len(t) < 20000 else t}
+    if ctx is not None and ctx is not BTC:
+        d["net"] = ctx.sym
+    return d
 
 
 def addr_form_cases(rng, O):
@@ -1045,9 +1465,113 @@ def addr_form_cases(rng, O):
             yield PropCase("roundtrip", _inp("addr", kw), (lambda kw=kw: chk_roundtrip("addr", kw)))
 
 
+OBJECT_MESSAGES = ["headers", "merkleblock", "tx", "block", "cmpctblock", "blocktxn"]
+
+
+def usable(name, O):
+    """can values of this message be generated for the network (its Tx / Block objects could be built here)?"""
+    need = set()
+    for _, wt in WIRE[name]:
+        need |= set(wt if isinstance(wt, list) else [wt])
+    if name == "merkleblock":
+        need.add("header")
+    return not (("tx" in need and not O.txs) or ("block" in need and not O.blocks) or ("header" in need and not O.headers))
+
+
+def net_prop_cases(rng, tier):
+    """every network object that has a message API, not only BTC: the T / B / z codecs are the network's own Tx and
+    Block classes (Bitcoin Gold headers are 140 bytes + solution, Litecoin / BCash / Groestlcoin have their own Tx)"""
+    reps = representative_nets()
+    for ctx in all_nets().values():
+        if ctx is BTC:
+            continue
+        try:
+            O = ctx.objs(rng)
+        except Exception:
+            continue
+        full = ctx in reps
+        names = OBJECT_MESSAGES + ["version", "addr", "inv", "ping", "getblocks", "alert"] if full else ["headers", "merkleblock", "tx", "block", "addr"]
+        for name in names:
+            if not usable(name, O):
+                continue
+            vals = message_values(name, rng, O, "quick")[:(30 if tier == "thorough" else 12)] if full else \
+                [gen_kwargs(name, rng, O) for _ in range(3 if tier == "thorough" else 2)]
+            for kw in vals:
+                yield PropCase("roundtrip", _inp(name, kw, ctx), (lambda name=name, kw=kw, ctx=ctx: chk_roundtrip(name, kw, ctx)))
+        if full:
+            for wt in ("tx", "block", "header"):
+                for v in good_values(wt, rng, O):
+                    yield PropCase("codec", {"wt": wt, "v": tok(v), "net": ctx.sym}, (lambda wt=wt, v=v, ctx=ctx: chk_codec(wt, v, ctx)))
+
+
+def presentation_prop_cases(rng, tier, O):
+    """accepted presentations of the field values (bytearray / memoryview / bytes subclass, int subclass, bool for int,
+    int for bool, list / 1-tuples / bytes for arrays, 4-byte IPv4 form, services as str / bool): same wire bytes, and
+    the parsed-back value equals the declared-type value"""
+    for name in WIRE:
+        if name == "merkleblock":
+            bases = [gen_merkleblock(rng, 3)]
+        else:
+            bases = [gen_kwargs(name, rng, O) for _ in range(2 if tier == "quick" else 12)]
+            for fname, wt in WIRE[name]:      # make sure arrays are non-empty and an IPv4-mapped address is present
+                if isinstance(wt, list):
+                    bases[0][fname] = gen_array(wt, 2, rng, O)
+                    if "netaddr" in wt:
+                        j = wt.index("netaddr")
+                        e = list(bases[0][fname][0])
+                        e[j] = mkpa(1, IP4_MAPPED_PREFIX + bytes([192, 168, 1, 7]), 8333)
+                        bases[0][fname] = (tuple(e),) + tuple(bases[0][fname][1:])
+                elif wt == "netaddr":
+                    bases[0][fname] = mkpa(1, IP4_MAPPED_PREFIX + bytes([10, 1, 2, 3]), 8333)
+                elif wt in INT_WTS:
+                    bases[0][fname] = 1
+        for kw in bases:
+            t = kwtok(kw)
+            for fname, kind, kw2 in presentation_variants(name, kw):
+                yield PropCase("presentation", {"name": name, "kwargs": t, "field": fname, "kind": kind},
+                               (lambda name=name, t=t, fname=fname, kind=kind: chk_presentation(name, t, fname, kind)))
+
+
+def history_prop_cases(rng, tier, O, ctx=None):
+    names = [n for n in WIRE if WIRE[n] and usable(n, O)]
+    seqs = []
+    long_kw = {"filter": tuple(rng.getrandbits(8) for _ in range(3000)), "hash_function_count": 1, "tweak": 2, "flags": True}
+    for n in names:
+        seqs.append([("filterload", long_kw), (n, gen_kwargs(n, rng, O))])
+    for _ in range(10 if tier == "quick" else 200):
+        seqs.append([(n, gen_kwargs(n, rng, O)) for n in (rng.choice(names) for _ in range(rng.randint(2, 5)))])
+    for seq in seqs:
+        st = [(n, kwtok(kw)) for n, kw in seq]
+        inp = {"seq": st}
+        if ctx is not None and ctx is not BTC:
+            inp["net"] = ctx.sym
+        yield PropCase("history", inp, (lambda st=st, ctx=ctx: chk_history(st, ctx)))
+
+
+def mutation_prop_cases(rng, tier):
+    ips = special_ips(rng)
+    for _ in range(20 if tier == "quick" else 400):
+        a1 = (rng.getrandbits(64), rng.choice(ips), rng.getrandbits(16))
+        a2 = (rng.getrandbits(64), rng.choice(ips), rng.getrandbits(16))
+        yield PropCase("mutation", {"which": "netaddr", "a1": [a1[0], a1[1].hex(), a1[2]], "a2": [a2[0], a2[1].hex(), a2[2]]},
+                       (lambda a1=a1, a2=a2: chk_mutation("netaddr", a1, a2)))
+        i1 = (rng.choice([1, 2, 3, 0, 2 ** 32 - 1]), rb(rng, 32))
+        i2 = (rng.choice([1, 2, 3, 4, (1 << 30) + 1]), rb(rng, 32))
+        yield PropCase("mutation", {"which": "inv", "a1": [i1[0], i1[1].hex()], "a2": [i2[0], i2[1].hex()]},
+                       (lambda i1=i1, i2=i2: chk_mutation("inv", i1, i2)))
+
+
 def prop_cases(rng, tier):
     O = Objs(rng)
     for pc in addr_form_cases(rng, O):
+        yield pc
+    for pc in presentation_prop_cases(rng, tier, O):
+        yield pc
+    for pc in history_prop_cases(rng, tier, O):
+        yield pc
+    for pc in mutation_prop_cases(rng, tier):
+        yield pc
+    for pc in net_prop_cases(rng, tier):
         yield pc
     for name in WIRE:
         yield PropCase("layout", {"name": name}, (lambda name=name: chk_layout_is_protocol(name)))
@@ -1080,15 +1604,25 @@ def _guard_chk(f):
 
 chk_roundtrip = _guard_chk(chk_roundtrip)
 chk_codec = _guard_chk(chk_codec)
+chk_history = _guard_chk(chk_history)
+chk_mutation = _guard_chk(chk_mutation)
 
 
 def replay_input(check, inp):
+    ctx = ctx_of(inp.get("net")) if isinstance(inp, dict) else BTC
     if check == "layout":
         return chk_layout_is_protocol(inp["name"])
     if check == "codec":
-        return chk_codec(inp["wt"], untok(inp["v"]))
+        return chk_codec(inp["wt"], untok(inp["v"], ctx), ctx)
     if check == "roundtrip":
-        return chk_roundtrip(inp["name"], unkwtok(inp.get("kwargs") or inp.get("kwargs_long")))
+        return chk_roundtrip(inp["name"], unkwtok(inp.get("kwargs") or inp.get("kwargs_long"), ctx), ctx)
+    if check == "presentation":
+        return chk_presentation(inp["name"], inp["kwargs"], inp["field"], inp["kind"], ctx)
+    if check == "history":
+        return chk_history([tuple(x) for x in inp["seq"]], ctx)
+    if check == "mutation":
+        conv = (lambda a: (a[0], bytes.fromhex(a[1]), a[2])) if inp["which"] == "netaddr" else (lambda a: (a[0], bytes.fromhex(a[1])))
+        return chk_mutation(inp["which"], conv(inp["a1"]), conv(inp["a2"]))
     return {"kind": "unknown-check"}
 
 
@@ -1103,37 +1637,61 @@ def search(rng, tier, disagreements, known_ids):
     """after a proof/correspondence break: look for an input on which the property itself fails"""
     cands = []
     O = Objs(rng)
-    if any(d["case"].startswith("mkaddr") or "A" in d["case"].split(" ")[1] or d["case"].split(" ")[1] in ("sversion", "saddr")
-           for d in disagreements[:200]):
-        cands += list(addr_form_cases(rng, O))
-    for d in disagreements[:60]:
+
+    def parts(d):
         toks = d["case"].split(" ")
+        ctx = BTC
+        if len(toks) > 1 and toks[1].startswith("@"):
+            ctx = ctx_of(toks[1])
+            toks = [toks[0]] + toks[2:]
+        return toks, ctx
+    heads = [parts(d) for d in disagreements[:200]]
+    if any(t[0] == "mkaddr" or (len(t) > 1 and ("A" in t[1] or t[1] in ("sversion", "saddr"))) for t, _ in heads):
+        cands += list(addr_form_cases(rng, O))
+        cands += [pc for pc in presentation_prop_cases(rng, "quick", O) if pc.inp["kind"] in ("ipv4-short-form", "services-str", "services-bool")]
+        cands += list(mutation_prop_cases(rng, "quick"))
+    if any(t[0] == "mkinv" or (len(t) > 1 and "v" in t[1][1:] and t[0].endswith("struct")) for t, _ in heads):
+        cands += list(mutation_prop_cases(rng, "quick"))
+    # other networks named by a disagreeing line, and every network when an object codec is involved
+    nets = []
+    for t, ctx in heads:
+        if ctx is not BTC and ctx not in nets:
+            nets.append(ctx)
+    if nets or any(len(t) > 1 and (t[1][1:] in OBJECT_MESSAGES or (t[0].endswith("struct") and set("TBz") & set(t[1][1:]))) for t, _ in heads):
+        cands += list(net_prop_cases(rng, "quick"))
+    for toks, ctx in heads[:60]:
         try:
+            Oc = ctx.objs(rng) if ctx is not BTC else O
             if toks[0] == "pack":
                 name = toks[1][1:]
                 if name in WIRE:
-                    kw = unkwtok(toks[2])
+                    kw = unkwtok(toks[2], ctx)
                     try:        # only keyword arguments of the declared types are inputs of the property
                         wire_fields(WIRE[name], kw)
                     except Exception:
                         continue
                     if set(kw) != set(n for n, _ in WIRE[name]):
                         continue
-                    cands.append(PropCase("roundtrip", _inp(name, kw), (lambda name=name, kw=kw: chk_roundtrip(name, kw))))
+                    cands.append(PropCase("roundtrip", _inp(name, kw, ctx), (lambda name=name, kw=kw, ctx=ctx: chk_roundtrip(name, kw, ctx))))
+                    t = kwtok(kw)
+                    for fname, kind, _ in presentation_variants(name, kw):
+                        cands.append(PropCase("presentation", {"name": name, "kwargs": t, "field": fname, "kind": kind, "net": ctx.sym},
+                                              (lambda name=name, t=t, fname=fname, kind=kind, ctx=ctx: chk_presentation(name, t, fname, kind, ctx))))
             elif toks[0] == "parse":
                 name = toks[1][1:]
-                if name in WIRE:
+                if name in WIRE and usable(name, Oc):
                     for _ in range(10):
-                        kw = gen_kwargs(name, rng, O)
-                        cands.append(PropCase("roundtrip", _inp(name, kw), (lambda name=name, kw=kw: chk_roundtrip(name, kw))))
+                        kw = gen_kwargs(name, rng, Oc)
+                        cands.append(PropCase("roundtrip", _inp(name, kw, ctx), (lambda name=name, kw=kw, ctx=ctx: chk_roundtrip(name, kw, ctx))))
             elif toks[0] in ("pack_struct", "unpack_struct"):
                 fmt = toks[1][1:]
                 for wt, c in CODEC_OF_WIRE.items():
                     if c in fmt:
-                        for v in good_values(wt, rng, O, 5):
-                            cands.append(PropCase("codec", {"wt": wt, "v": tok(v)}, (lambda wt=wt, v=v: chk_codec(wt, v))))
+                        for v in good_values(wt, rng, Oc, 5):
+                            cands.append(PropCase("codec", {"wt": wt, "v": tok(v), "net": ctx.sym}, (lambda wt=wt, v=v, ctx=ctx: chk_codec(wt, v, ctx))))
         except Exception:
             continue
+    cands += list(history_prop_cases(rng, "quick", O))
     cands += list(prop_cases(rng, "quick"))
     for pc in cands:
         try:
